@@ -268,6 +268,8 @@ def stmts(draw, cfg: Cfg, mode: str, version: int, fields, subs: List[str], dept
             kinds += ["call"] * 3
         if depth < 2 and version >= 4:
             kinds += ["while"]
+            if cfg.shared.get("loop_bias") and subs:
+                kinds += ["while"] * 6
         if version >= 8 and depth < 2:
             kinds += ["switch"]
         kinds += ["return", "approve", "err", "reject"] if depth > 0 else ["return"]
@@ -296,9 +298,9 @@ def stmts(draw, cfg: Cfg, mode: str, version: int, fields, subs: List[str], dept
             el = draw(stmts(cfg, mode, version, fields, subs, depth + 1, budget, in_sub)) if depth < 3 and draw(st.booleans()) else []
             out.append(["if", c, th, el, draw(st.sampled_from(["bz", "bnz"]))])
         elif kind == "while":
-            if cfg.on("abs_read_in_loop"):
+            if cfg.on("abs_read_in_loop") or cfg.shared.get("no_group_reads_at_all"):
                 body = draw(stmts(cfg, mode, version, fields, subs, depth + 1, budget, in_sub))
-                if subs and draw(st.integers(0, 2)) == 0:
+                if subs and (cfg.shared.get("loop_bias") or draw(st.booleans())):
                     # loop whose first body statement is a call: with the do-while lowering the loop header
                     # block itself ends in callsub
                     body.insert(0, ["call", draw(st.sampled_from(subs))])
@@ -308,11 +310,15 @@ def stmts(draw, cfg: Cfg, mode: str, version: int, fields, subs: List[str], dept
                 cfg2 = cfg.derive({"gtxn_reads"})
                 body = draw(stmts(cfg2, mode, version, fields, [], depth + 1, budget, in_sub))
             how_ = draw(st.sampled_from([0, 1, 2]))
-            if how_ == 2 and subs and cfg.on("abs_read_in_loop") and draw(st.booleans()):
+            if how_ == 2 and subs and (cfg.on("abs_read_in_loop") or cfg.shared.get("no_group_reads_at_all")) and draw(st.booleans()):
                 # rotated loop whose body ends in a call: the block executed after the return is the loop test,
                 # which was already executed on the way into the loop
                 body.append(["call", draw(st.sampled_from(subs))])
             out.append(["while", draw(st.integers(1, 3)), body, draw(st.integers(0, 3)), how_])
+            in_loop = [x[1] for x in body if x[0] == "call"]
+            if in_loop and draw(st.booleans()):
+                # the subroutine used inside the loop is called once more after it
+                out.append(["call", draw(st.sampled_from(in_loop))])
         elif kind == "switch":
             arms = [draw(stmts(cfg, mode, version, fields, subs, depth + 1, budget, in_sub)) for _ in range(draw(st.integers(1, 3)))]
             out.append(["switch", arms, draw(st.sampled_from([0, 0, 1, 2])), draw(st.booleans())])
@@ -1059,15 +1065,29 @@ DETECTOR_FIELDS = {
 @st.composite
 def semantic_program(draw, profile: str = "modelled", disabled=(), focus: Optional[List[str]] = None,
                      mode: Optional[str] = None, max_stmts: int = 12, with_ast: bool = False, pinned: bool = False,
-                     second_intcblock: bool = False, allslots: bool = False, xflag: bool = False):
+                     second_intcblock: bool = False, allslots: bool = False, xflag: bool = False, loop_bias: bool = False):
     cfg = Cfg(profile, disabled, focus, mode)
     cfg.xflag = xflag
+    if loop_bias:
+        # theme: loops that call subroutines which call further subroutines, the same subroutine used again after
+        # the loop; no reads of other group members (so the theme is available under the known finding
+        # abs_read_in_loop as well)
+        cfg.shared["loop_bias"] = True
+        cfg.shared["no_group_reads_at_all"] = True
+        cfg.off |= {"gtxn_reads"}
     version = draw(st.sampled_from([8, 8, 8, 7, 6, 5, 4, 4, 3, 2]))
+    if loop_bias:
+        version = max(version, 4)
     if pinned:
         # the program first asserts its own group position i; every check of a governed field is then spelled
         # `gtxn i F` / `int i; gtxns F`
         cfg.pin = draw(st.sampled_from([0, 1, 2, 7, 14, 15, 15]))
         cfg.off |= {"pinidx_stmt"}
+    if not cfg.on("abs_read_in_loop") and draw(st.booleans()):
+        # known finding (an absolute-index read inside a loop is never on a reported path): half of the programs
+        # read no other group member at all - their loops may then hold calls and everything else
+        cfg.off |= {"gtxn_reads"}
+        cfg.shared["no_group_reads_at_all"] = True
     m = mode or draw(st.sampled_from(["lsig", "lsig", "app"]))
     fields = list(focus) if focus else list(DETECTOR_FIELDS[m])
     if allslots:
@@ -1084,6 +1104,8 @@ def semantic_program(draw, profile: str = "modelled", disabled=(), focus: Option
     if version < 2:
         fields = [f for f in fields if f not in ("RekeyTo", "OnCompletion", "ApplicationID")]
     nsubs = draw(st.integers(0, 3)) if version >= 4 else 0
+    if loop_bias:
+        nsubs = max(nsubs, 2)
     sub_names = [f"sub{k}" for k in range(nsubs)]
     budget = [max_stmts]
     subs = {}
@@ -1094,6 +1116,9 @@ def semantic_program(draw, profile: str = "modelled", disabled=(), focus: Option
             callees = callees + [sub_names[k]]
         b = [max(2, budget[0] // 3)]
         subs[sub_names[k]] = draw(stmts(cfg, m, version, fields, callees, 1, b, sub_names[k]))
+        if callees and (cfg.shared.get("loop_bias") or draw(st.sampled_from([0, 0, 1]))):
+            # nested call: the subroutine starts by calling another one
+            subs[sub_names[k]].insert(0, ["call", draw(st.sampled_from(callees))])
     main = draw(stmts(cfg, m, version, fields, sub_names, 0, budget, None))
     chain = False
     if nsubs >= 2 and version >= 3 and cfg.on("sub_internal_approve") and draw(st.integers(0, 3)) == 0:
